@@ -18,30 +18,50 @@ for p in sorted(glob.glob(os.path.join(ROOT, "seeded", "*", "meta.json"))):
     summ = re.sub(r"\s+", " ", m.get("summary") or "")[:170]
     files = ", ".join(f.replace("src/", "") for f in (m.get("files_changed") or []))
     rows.append(f"| {name} | {files} | {summ} | {chk.get('verdict','?')}: {first} | {also or '–'} | {silent or '–'} |")
-text = f"""Forty changes were produced by twenty fresh sub-agents (two per property), each given only the
-property text and its own scratch worktree of `/repo` — nothing from `/verif`.  Each change compiles,
-passes the 57 existing tests, and comes with a demonstration that fails with it and passes
+text = f"""Seventy-two changes were produced in two rounds by fresh sub-agents (round 1: twenty agents, two
+changes per property; round 2: sixteen agents, two more for C01–C05, C07, C09, C11, C13–C20, told which
+ideas round 1 had used and asked for different functions, drivers and kinds of mistake), each given
+only the property text and its own scratch worktree of `/repo` — nothing from `/verif`.  Each change
+compiles, passes the 57 existing tests, and comes with a demonstration that fails with it and passes
 without it; all of that was re-confirmed by `tools/seed_eval.py` in a scratch worktree (build with and
 without the guard, suite, demonstration both ways) before the checks were run against it.  They are kept
-under `seeded/<id>/` (`patch.diff`, the demonstration, `meta.json` with what was run and the verdicts).
+under `seeded/<id>/` (`patch.diff`, the demonstration, `meta.json` with what was run and the verdicts;
+ids `Cxx-1/2` = round 1, `Cxx-3/4` = round 2).
 
-First pass: 37 of 40 were reported with a concrete replay, 2 as `no-failing-input-found`
+Round 1, first pass: 37 of 40 were reported with a concrete replay, 2 as `no-failing-input-found`
 (C07-1: available index read back from device memory — only the model disagreed; C08-2: queue flags
 of the vsock TX queue swapped — only the extractor theorem broke), 1 was missed (C19-2: `peek_used`
 compares with `>` instead of `!=`, which needs more than 65 536 completions on an event queue).
 The checks were strengthened: C07 got an oracle that the driver's own indices equal its own
 submission/consumption counts under scribbling; C08 got a feature-use oracle for the vsock TX queue
 (a credit update is injected, a packet with a body is sent: INDIRECT only if negotiated, NO_NOTIFY
-honoured without EVENT_IDX); C19 got floods of more than 65 536 events.  All 40 are now reported
-with a concrete replay by the check of their own property.  The last two columns come from running
-further related checks against each change (`tools/seed_cross.py`); † = reported as
-`no-failing-input-found`.
+honoured without EVENT_IDX); C19 got floods of more than 65 536 events.
+
+Round 2, first pass: 22 of 32 concrete, 2 `no-failing-input-found` (C07-3, C13-3), 8 missed.  What
+was missing and what was added (all in the harness; no oracle was loosened):
+
+| missed | why | added |
+|---|---|---|
+| C02-4 `add_direct` returns `Err` for an empty buffer after taking descriptors | the generators never submitted empty buffers (the code panics on them) | 1 submission in 25 on the direct path contains an empty buffer; the model says `panic`; a refusal must leave bookkeeping, memory and platform untouched |
+| C04-3 net `recycle_rx_buffer` files the buffer under its old slot | C04 only ran the bare queue | C04 also runs the block, console, net, socket and event-queue streams and reports their share/unshare ledger failures |
+| C04-4 MMIO `queue_set` writes the driver area's upper word into QueueDeviceHigh | fake DMA addresses all had the same upper word | consecutive DMA regions now differ in both halves; every driver is built over the real MMIO transport and each latched queue address must lie in live DMA memory |
+| C05-4 net `receive_begin` asks the *send* queue whether to notify | notification decisions were only checked on a bare queue | (a) lost-notification oracle on every driver-level stream (`wake.rs`); (b) per-driver matrix: suppression words of all queues set independently, `notify` calls counted per queue and compared with the model's `should_notify` |
+| C07-3 `OwningQueue::poll` drops the buffer on a handler error | reported only as model disagreement | event-queue walks end with the device completing every id it does not hold: a dropped buffer is recycled twice (ledger) |
+| C07-4 console clears its receive token before validating the id | the device never reported a foreign id | console walks end with a foreign id followed by reads: the buffer must not be shared a second time |
+| C13-3 `read_consistent` returns a closure error without re-reading the generation | all 9P tags were ASCII, no torn read was invalid | tags with two-byte UTF-8 characters: a torn read that is invalid UTF-8 must be retried |
+| C14-4 block capacity read outside `read_consistent` | C14 never changed the configuration mid-read (C13 did) | C14 includes the block cases of C13's changing-configuration stream |
+| C15-3 `recv(pop)` loads the byte after re-posting the buffer | needs in-place sharing and a device that fills at the notification | `LedgerHal` can share in place; half of the honest console cases use it; the device may fill the re-posted buffer inside the notifying call |
+| C16-4 `receive_wait` completes whatever token is reported first | blocking receive was never issued behind a pending completion | it is now; expected `WrongToken`, nothing consumed |
+
+All 72 are now reported with a concrete replay by the check of their own property.  The last two
+columns come from running further related checks against a change (`tools/seed_cross.py`, run for part
+of round 1 only); † = reported as `no-failing-input-found`.
 
 | seed | file | change (agent's summary) | own check: verdict and first oracle line | also caught by | silent (ran, did not fire) |
 |---|---|---|---|---|---|
 """ + "\n".join(rows) + """
 
-The thirteen `fix:` commits double as seeded changes in reverse: reverting each of f272f5e, f757fff,
+The `fix:` commits double as seeded changes in reverse: reverting each of f272f5e, f757fff,
 0886409, 8b9dfb8, 228c5fc, 15d1654 (C05/C11), a71a624 (C12), 770e6c2 (C17), 0294072 (C08), b37aa93 (C09),
 9818ce4 (C07/C19), 058e2dd (C10) was confirmed to raise a concrete VIOLATION in the corresponding
 check (done by the sub-agents that built those checks, in scratch worktrees, §11).
